@@ -435,7 +435,7 @@ Lemma fault_effect (x : g) c cb y pc' : fault E M x c cb = (y, pc') ->
   match st x with
   | Closed => y = x /\ pc' = SDone c OFaultClosed
   | Disc => st y = Disc /\ trace y = trace x /\ pend y = S (pend x) /\ pc' = SDone c OFault
-  | Conn => st y = Disc /\ trace y = Disc :: trace x /\
+  | Conn => st y = Disc /\ trace y = (if has_cb x then Disc :: trace x else trace x) /\
             ((pend y = S (pend x) /\ pc' = SDone c OFault) \/
              (pend y = pend x /\ pc' = SFaultCb c /\ has_cb x = true /\ cb = CbSusp))
   end.
@@ -444,7 +444,7 @@ Proof.
   - intros H; inversion H; subst; simpl. auto.
   - assert (Y : set_state E M x Disc =
                 {| st := Disc; wr := wr x; next_w := next_w x; lockh := lockh x; pcs := pcs x; encst := encst x;
-                   log := log x; pend := pend x; trace := Disc :: trace x; has_cb := has_cb x |}).
+                   log := log x; pend := pend x; trace := (if has_cb x then Disc :: trace x else trace x); has_cb := has_cb x |}).
     { unfold set_state. rewrite S. reflexivity. }
     rewrite Y. destruct (has_cb x) eqn:Hc; [destruct cb|]; intros H; inversion H; subst; simpl;
       (split; [reflexivity|]); (split; [reflexivity|]); [left | right | left]; repeat split; auto.
@@ -458,7 +458,7 @@ Theorem write_fault (x x' : g) i pc a :
   match st x with
   | Closed => st x' = Closed /\ pend x' = pend x /\ trace x' = trace x /\ pc' = SDone c OFaultClosed
   | Disc => st x' = Disc /\ trace x' = trace x /\ pend x' = S (pend x) /\ pc' = SDone c OFault
-  | Conn => st x' = Disc /\ trace x' = Disc :: trace x /\
+  | Conn => st x' = Disc /\ trace x' = (if has_cb x then Disc :: trace x else trace x) /\
             ((pend x' = S (pend x) /\ pc' = SDone c OFault) \/
              (pend x' = pend x /\ pc' = SFaultCb c /\
               forall x'', step x' (LSend i AFaultCbDone) = Some x'' ->
@@ -467,13 +467,13 @@ Theorem write_fault (x x' : g) i pc a :
 Proof.
   intros P W. simpl. rewrite P.
   assert (K : forall (z : g) c cb y pc', st z = st x -> pend z = pend x -> trace z = trace x -> lockh z = None ->
-              pcs z = pcs x -> fault E M z c cb = (y, pc') ->
+              pcs z = pcs x -> has_cb z = has_cb x -> fault E M z c cb = (y, pc') ->
               lockh (with_pcs E M y (upd i pc' (pcs y))) = None /\
               exists c0 pc0, nth_error (pcs (with_pcs E M y (upd i pc' (pcs y)))) i = Some pc0 /\
               match st x with
               | Closed => st y = Closed /\ pend y = pend x /\ trace y = trace x /\ pc0 = SDone c0 OFaultClosed
               | Disc => st y = Disc /\ trace y = trace x /\ pend y = S (pend x) /\ pc0 = SDone c0 OFault
-              | Conn => st y = Disc /\ trace y = Disc :: trace x /\
+              | Conn => st y = Disc /\ trace y = (if has_cb x then Disc :: trace x else trace x) /\
                         ((pend y = S (pend x) /\ pc0 = SDone c0 OFault) \/
                          (pend y = pend x /\ pc0 = SFaultCb c0 /\
                           forall x'', SendModel.step E M encode uselock (with_pcs E M y (upd i pc' (pcs y)))
@@ -481,31 +481,32 @@ Proof.
                                       pend x'' = S (pend y) /\ st x'' = st y /\
                                       nth_error (pcs x'') i = Some (SDone c0 OFault)))
               end).
-  { intros z c cb y pc' Z1 Z2 Z3 Z4 Z5 F. pose proof (fault_facts _ _ _ _ _ _ _ F) as (_ & L & Pc & _).
+  { intros z c cb y pc' Z1 Z2 Z3 Z4 Z5 Z6 F. pose proof (fault_facts _ _ _ _ _ _ _ F) as (_ & L & Pc & _).
     pose proof (fault_effect _ _ _ _ _ F) as Ef. simpl. split; [congruence|].
     assert (N : nth_error (upd i pc' (pcs y)) i = Some pc').
     { rewrite Pc, Z5. eapply nth_error_upd_same. exact P. }
     exists c, pc'. split; [exact N|]. rewrite Z1 in Ef. destruct (st x).
     - destruct Ef as (A & B & C0 & Dd). repeat split; congruence.
-    - destruct Ef as (A & B & [(C0 & Dd) | (C0 & Dd & _)]).
-      + repeat split; try congruence. left. split; congruence.
-      + repeat split; try congruence. right. split; [congruence|]. split; [exact Dd|].
+    - destruct Ef as (A & B & Cs). rewrite Z6, Z3 in B. split; [exact A|]. split; [exact B|].
+      destruct Cs as [(C0 & Dd) | (C0 & Dd & _)].
+      + left. split; congruence.
+      + right. split; [congruence|]. split; [exact Dd|].
         intros x''. simpl. rewrite N. rewrite Dd. simpl. intros H; inversion H; subst; clear H. simpl.
         repeat split. eapply nth_error_upd_same. exact N.
     - destruct Ef as (-> & Dd). repeat split; congruence. }
   destruct a as [| |r cb|ok cb|]; try discriminate; destruct pc; simpl; try discriminate.
   - destruct rest as [|p rest]; [discriminate|]. destruct (wr x) as [w|]; destruct r; try discriminate.
     + destruct (fault E M (release E M x) c cb) as [y pc'] eqn:F. intros H; inversion H; subst; clear H.
-      eapply K; [| | | | |exact F]; reflexivity.
+      eapply K; [| | | | | |exact F]; reflexivity.
     + destruct (fault E M (release E M (add_log E M x i w p)) c cb) as [y pc'] eqn:F.
-      intros H; inversion H; subst; clear H. eapply K; [| | | | |exact F]; reflexivity.
+      intros H; inversion H; subst; clear H. eapply K; [| | | | | |exact F]; reflexivity.
     + destruct (fault E M (release E M x) c cb) as [y pc'] eqn:F. intros H; inversion H; subst; clear H.
-      eapply K; [| | | | |exact F]; reflexivity.
+      eapply K; [| | | | | |exact F]; reflexivity.
     + destruct (fault E M (release E M x) c cb) as [y pc'] eqn:F. intros H; inversion H; subst; clear H.
-      eapply K; [| | | | |exact F]; reflexivity.
+      eapply K; [| | | | | |exact F]; reflexivity.
   - destruct ok; [discriminate|].
     destruct (fault E M (release E M x) c cb) as [y pc'] eqn:F. intros H; inversion H; subst; clear H.
-    eapply K; [| | | | |exact F]; reflexivity.
+    eapply K; [| | | | | |exact F]; reflexivity.
 Qed.
 
 End Exact.
